@@ -178,6 +178,24 @@ static void decode(const json& v)
             else
                 rep.ok("leaf");
         }
+        // get_by_tag must behave exactly like the named accessor (C19)
+        for(auto it = R.tagged.lower_bound(lkey + ":");
+            it != R.tagged.end() && it->first.compare(0, lkey.size() + 1, lkey + ":") == 0;
+            ++it)
+        {
+            if(it->first.find(':', lkey.size() + 1) != std::string::npos)
+                continue;
+            cursor_ret a, b;
+            auto err = attempt([&] { a = it->second.tget(p, size, ip); });
+            auto err2 = attempt([&] { b = it->second.named(p, size, ip); });
+            if(!err.empty() || !err2.empty())
+                bad(c, "bytag", "get-by-tag", it->first, err.empty() ? err2 : err, cs);
+            else if(a.what != b.what || a.value != b.value || a.addr != b.addr || a.n != b.n)
+                bad(c, "bytag", "get-by-tag", it->first,
+                    "get_by_tag differs from the named accessor", cs);
+            else
+                rep.ok("get-by-tag");
+        }
         for(const auto& d : inst["data"])
         {
             const std::string key = lkey + ":" + d["name"].get<std::string>();
@@ -341,6 +359,27 @@ static void encode(const json& v)
     }
     else
         rep.ok("encode-" + op);
+    if(op == "set" && st["leaf"].size() == 1)
+    {
+        auto it = R.tagged.find(key);
+        if(it != R.tagged.end() && it->second.tset)
+        {
+            region reg2(pre.size(), true);
+            reg2.load(pre);
+            char* p2 = reg2.data() + v0;
+            const bytes val = to_bytes(st["val"]);
+            auto e2 = attempt([&] { it->second.tset(p2, size, ip, val); });
+            cs["aspect"] = "bytag";
+            if(!e2.empty())
+                rep.mismatch("encode/set-by-tag/" + g_schema + ":" + key + "/trap", e2, cs);
+            else if(reg2.dump() != post)
+                rep.mismatch(
+                    "encode/set-by-tag/" + g_schema + ":" + key,
+                    "set_by_tag wrote different bytes than the SBE image", cs);
+            else
+                rep.ok("encode-set-by-tag");
+        }
+    }
     if(op == "mhdr" || op == "ghdr")
     {
         if(ret + (std::ptrdiff_t)v0 != st["ret"].get<std::ptrdiff_t>())
